@@ -610,14 +610,61 @@ Definition complete {A} (r : lres A) : lres A :=
   | x => x
   end.
 
-(* str::trim(): Unicode White_Space; the ASCII ones and the common multi-byte ones are modelled *)
+(* str::trim(): characters with the Unicode White_Space property (char::is_whitespace):
+   U+0009..U+000D, U+0020, U+0085, U+00A0, U+1680, U+2000..U+200A, U+2028, U+2029, U+202F, U+205F, U+3000,
+   in their UTF-8 encodings *)
 Definition is_ws_ascii (b : N) : bool := ((9 <=? b) && (b <=? 13)) || (b =? 32).
-Fixpoint trim_start (x : bytes) : bytes :=
+Definition ws_prefix (x : bytes) : option bytes :=
   match x with
-  | b :: r => if is_ws_ascii b then trim_start r else x
-  | [] => []
+  | b :: r =>
+      if is_ws_ascii b then Some r
+      else match r with
+           | c :: r2 =>
+               if (b =? 194) && ((c =? 133) || (c =? 160)) then Some r2
+               else match r2 with
+                    | d :: r3 =>
+                        if (b =? 225) && (c =? 154) && (d =? 128) then Some r3
+                        else if (b =? 226) && (c =? 128) &&
+                                (((128 <=? d) && (d <=? 138)) || (d =? 168) || (d =? 169) || (d =? 175)) then Some r3
+                        else if (b =? 226) && (c =? 129) && (d =? 159) then Some r3
+                        else if (b =? 227) && (c =? 128) && (d =? 128) then Some r3
+                        else None
+                    | [] => None
+                    end
+           | [] => None
+           end
+  | [] => None
   end.
-Definition trim (x : bytes) : bytes := rev (trim_start (rev (trim_start x))).
+(* the same on a reversed text: the last character of the text first, its bytes reversed *)
+Definition ws_suffix_rev (x : bytes) : option bytes :=
+  match x with
+  | d :: r =>
+      if is_ws_ascii d then Some r
+      else match r with
+           | c :: r2 =>
+               if (c =? 194) && ((d =? 133) || (d =? 160)) then Some r2
+               else match r2 with
+                    | b :: r3 =>
+                        if (b =? 225) && (c =? 154) && (d =? 128) then Some r3
+                        else if (b =? 226) && (c =? 128) &&
+                                (((128 <=? d) && (d <=? 138)) || (d =? 168) || (d =? 169) || (d =? 175)) then Some r3
+                        else if (b =? 226) && (c =? 129) && (d =? 159) then Some r3
+                        else if (b =? 227) && (c =? 128) && (d =? 128) then Some r3
+                        else None
+                    | [] => None
+                    end
+           | [] => None
+           end
+  | [] => None
+  end.
+Fixpoint drop_while_some (step : bytes -> option bytes) (fuel : nat) (x : bytes) : bytes :=
+  match fuel with
+  | O => x
+  | S f => match step x with Some r => drop_while_some step f r | None => x end
+  end.
+Definition trim_start (x : bytes) : bytes := drop_while_some ws_prefix (length x) x.
+Definition trim (x : bytes) : bytes :=
+  let y := trim_start x in rev (drop_while_some ws_suffix_rev (length y) (rev y)).
 
 (* FilterAst::lex_with + FilterParser::parse *)
 Definition parse_filter (sch : scheme) (st : settings) (text : bytes) : lres lexpr :=
